@@ -5,9 +5,10 @@
   functions: no assumption on the writer or the parser is used), ALL states of the directory (including a stale
   <name>.shx-bak, a missing .res/.hkl), ALL outcomes of the external program and ALL call histories.
 
-  `Fix.all` is the repaired code (fixes/C19_1 … C19_4); the `…_orig_fails_on` theorems are the `decide`-proved
+  `Fix.all` is the repaired code (fixes/C19_1 … C19_4, C04_1); the `…_orig_fails_on` theorems are the `decide`-proved
   witnesses that the code as found (`Fix.none`, or one repair missing) violates the same statements.
-  One finding stays open (overlap with C04): ACTA removal shifts `delete_on_write`, see `InsStatement`.
+  The former open finding (ACTA removal shifted `delete_on_write`, overlap with C04) is repaired in the tree (C04_1):
+  `ins_is_model` is full strength; the legacy behaviour is kept as `Fix.dow = false` with its witness.
 -/
 import ShelxModel.C19
 
@@ -96,11 +97,11 @@ def insMem (st : St B R) (call : Call B) : Mem R :=
 
 theorem refine_eq (f : Fix) (c : Codec B R) (st : St B R) (call : Call B) :
     refine f c st call = finish f c (removeActa (setCycles call.cycles st.mem)).2 (insMem st call)
-      (runShelxl f c { st.fs with ins := some (write c (insMem st call)) } call) := rfl
+      (runShelxl f c { st.fs with ins := some (write f c (insMem st call)) } call) := rfl
 
 theorem refine_ins (f : Fix) (c : Codec B R) (st : St B R) (call : Call B) :
-    (refine f c st call).st.fs.ins = some (write c (insMem st call)) := by
-  have h := runShelxl_ins f c { st.fs with ins := some (write c (insMem st call)) } call
+    (refine f c st call).st.fs.ins = some (write f c (insMem st call)) := by
+  have h := runShelxl_ins f c { st.fs with ins := some (write f c (insMem st call)) } call
   rw [refine_eq]
   generalize runShelxl f c _ call = x at h ⊢
   obtain ⟨fs2, e⟩ := x
@@ -108,25 +109,33 @@ theorem refine_ins (f : Fix) (c : Codec B R) (st : St B R) (call : Call B) :
   | some e => simpa [finish] using h
   | none => cases hr : fs2.res <;> simp_all [finish]
 
-theorem write_insMem (c : Codec B R) (st : St B R) (call : Call B) (hs : inSync st.mem = true) :
-    write c (insMem st call) = c.text (insDoc st call) := by
+theorem write_insMem (f : Fix) (c : Codec B R) (st : St B R) (call : Call B) (hf : f.dow = true) :
+    write f c (insMem st call) = c.text (insDoc st call) := by
+  obtain ⟨fs, ⟨⟨acta, cyc, rest⟩, dow, skew⟩⟩ := st
+  obtain ⟨cycles, backup, o⟩ := call
+  cases acta <;> cases cycles <;> simp [write, hf, insMem, setCycles, removeActa, insDoc]
+
+theorem write_insMem_legacy (f : Fix) (c : Codec B R) (st : St B R) (call : Call B) (hs : inSync st.mem = true) :
+    write f c (insMem st call) = c.text (insDoc st call) := by
   obtain ⟨fs, ⟨⟨acta, cyc, rest⟩, dow, skew⟩⟩ := st
   obtain ⟨cycles, backup, o⟩ := call
   unfold inSync at hs
-  cases acta <;> cases cycles <;> cases dow <;>
+  cases acta <;> cases cycles <;> cases dow <;> cases hd : f.dow <;>
     simp_all [write, insMem, setCycles, removeActa, insDoc] <;> omega
 
-/-- **ins_is_model** (partial: `inSync`, which excludes exactly the open finding below).
+/-- **ins_is_model** (full strength since the C04 repair is in the tree: no hypothesis on the state).
     The file handed to SHELXL is the current model without ACTA and with the requested number of cycles —
-    for every variant of the code, every outcome, every directory state. -/
-theorem ins_is_model_partial (f : Fix) (c : Codec B R) (st : St B R) (call : Call B)
+    for every outcome, every directory state, every object (any number of FVAR/SFAC/SYMM lines), and every
+    combination of the C19 repairs. -/
+theorem ins_is_model (f : Fix) (c : Codec B R) (st : St B R) (call : Call B) (hf : f.dow = true) :
+    (refine f c st call).st.fs.ins = some (c.text (insDoc st call)) := by
+  rw [refine_ins, write_insMem f c st call hf]
+
+/-- the same for the code before the C04 repair, where it needed `inSync` (kept with its witness below) -/
+theorem ins_is_model_legacy (f : Fix) (c : Codec B R) (st : St B R) (call : Call B)
     (hs : inSync st.mem = true) :
     (refine f c st call).st.fs.ins = some (c.text (insDoc st call)) := by
-  rw [refine_ins, write_insMem c st call hs]
-
-/-- the full-strength statement (no `inSync`): open finding, the code breaks it (C04 overlap) -/
-def InsStatement (c : Codec B R) : Prop :=
-  ∀ (st : St B R) (call : Call B), (refine Fix.all c st call).st.fs.ins = some (c.text (insDoc st call))
+  rw [refine_ins, write_insMem_legacy f c st call hs]
 
 /-! ### a concrete instance for witnesses and examples: contents and documents are numbers -/
 
@@ -148,16 +157,20 @@ def wSt' : St Nat Nat :=
 
 def good (b : Nat) : Outcome Nat := ⟨0, .wrote b, .good⟩
 
-theorem ins_is_model_fails_on : ¬ InsStatement wc := by
-  intro h
-  exact absurd (h wSt ⟨some 4, true, good 60⟩) (by decide)
+/-- C04_1 missing: ACTA is deleted from `_reslist`, `delete_on_write` still points one line further -/
+theorem ins_is_model_orig_fails_on :
+    ¬ ((refine { Fix.all with dow := false } wc wSt ⟨some 4, true, good 60⟩).st.fs.ins
+        = some (wc.text (insDoc wSt ⟨some 4, true, good 60⟩))) := by
+  decide
 
-example : inSync wSt'.mem = true ∧ wSt'.mem.doc.acta.isSome = true := by decide
+/-- the state the legacy code garbled (ACTA + second FVAR line, freshly read) is inside the theorem now -/
+example : (refine Fix.all wc wSt ⟨some 4, true, good 60⟩).st.fs.ins
+    = some (wc.text (insDoc wSt ⟨some 4, true, good 60⟩)) ∧ inSync wSt.mem = false := by decide
 
 /-! ### failure: the previous .res is back -/
 
 theorem refine_fs_of_run (f : Fix) (c : Codec B R) (st : St B R) (call : Call B) :
-    (refine f c st call).st.fs = (runShelxl f c { st.fs with ins := some (write c (insMem st call)) } call).1 := by
+    (refine f c st call).st.fs = (runShelxl f c { st.fs with ins := some (write f c (insMem st call)) } call).1 := by
   rw [refine_eq]
   generalize runShelxl f c _ call = x
   obtain ⟨fs2, e⟩ := x
@@ -166,7 +179,7 @@ theorem refine_fs_of_run (f : Fix) (c : Codec B R) (st : St B R) (call : Call B)
   | none => cases hr : fs2.res <;> simp_all [finish]
 
 theorem refine_exc_of_run_some (f : Fix) (c : Codec B R) (st : St B R) (call : Call B) (e : PyErr) (fs2 : FS B)
-    (h : runShelxl f c { st.fs with ins := some (write c (insMem st call)) } call = (fs2, some e)) :
+    (h : runShelxl f c { st.fs with ins := some (write f c (insMem st call)) } call = (fs2, some e)) :
     (refine f c st call).exc = some e ∧
     (refine f c st call).st.mem = (if f.acta then restoreActa (removeActa (setCycles call.cycles st.mem)).2
         (insMem st call) else insMem st call) := by
@@ -174,7 +187,7 @@ theorem refine_exc_of_run_some (f : Fix) (c : Codec B R) (st : St B R) (call : C
   simp [finish]
 
 theorem refine_of_run_ok (f : Fix) (c : Codec B R) (st : St B R) (call : Call B) (fs2 : FS B) (b : B)
-    (h : runShelxl f c { st.fs with ins := some (write c (insMem st call)) } call = (fs2, none))
+    (h : runShelxl f c { st.fs with ins := some (write f c (insMem st call)) } call = (fs2, none))
     (hb : fs2.res = some b) :
     (refine f c st call).exc = none ∧
     (refine f c st call).st.mem = restoreActa (removeActa (setCycles call.cycles st.mem)).2
@@ -183,7 +196,7 @@ theorem refine_of_run_ok (f : Fix) (c : Codec B R) (st : St B R) (call : Call B)
   simp [finish, hb]
 
 theorem refine_of_run_none (f : Fix) (c : Codec B R) (st : St B R) (call : Call B) (fs2 : FS B)
-    (h : runShelxl f c { st.fs with ins := some (write c (insMem st call)) } call = (fs2, none))
+    (h : runShelxl f c { st.fs with ins := some (write f c (insMem st call)) } call = (fs2, none))
     (hb : fs2.res = none) :
     (refine f c st call).exc = some .FileNotFoundError ∧ (refine f c st call).st.mem = insMem st call := by
   rw [refine_eq, h]
@@ -197,14 +210,14 @@ theorem failure_restores (c : Codec B R) (st : St B R) (call : Call B)
     (hf : failed c st.fs.res call.out = true) :
     (refine Fix.all c st call).st.fs.res = st.fs.res ∧ (refine Fix.all c st call).exc ≠ none := by
   by_cases hst : started st call = true
-  · have h := runShelxl_failed c { st.fs with ins := some (write c (insMem st call)) } call
+  · have h := runShelxl_failed c { st.fs with ins := some (write Fix.all c (insMem st call)) } call
       (by simpa [started] using hst) hp hf
     have he := refine_exc_of_run_some Fix.all c st call _ _ h
     rw [refine_fs_of_run, h, he.1]
     obtain ⟨⟨res, ins, bak, hkl, saves⟩, m⟩ := st
     cases res <;> simp_all [backedUp, started]
   · have hst' : started st call = false := by simpa using hst
-    have h := runShelxl_not_started Fix.all c { st.fs with ins := some (write c (insMem st call)) } call
+    have h := runShelxl_not_started Fix.all c { st.fs with ins := some (write Fix.all c (insMem st call)) } call
       (by simpa [started] using hst')
     have he := refine_exc_of_run_some Fix.all c st call _ _ h
     rw [refine_fs_of_run, h, he.1]
@@ -226,7 +239,7 @@ theorem success_reloads (c : Codec B R) (st : St B R) (call : Call B)
       (refine Fix.all c st call).st.mem.doc = reloaded c st b := by
   obtain ⟨b, hb⟩ := left_some_of_not_failed c _ _ hf
   refine ⟨b, hb, ?_⟩
-  have h := runShelxl_ok c { st.fs with ins := some (write c (insMem st call)) } call
+  have h := runShelxl_ok c { st.fs with ins := some (write Fix.all c (insMem st call)) } call
     (by simpa [started] using hst) hp hf
   have he := refine_of_run_ok Fix.all c st call _ b h (by simpa using hb)
   rw [refine_fs_of_run, h, he.1, he.2]
@@ -271,7 +284,7 @@ theorem failure_keeps_model (c : Codec B R) (st : St B R) (call : Call B)
     (refine Fix.all c st call).st.mem.doc.rest = st.mem.doc.rest ∧
     (∀ a, st.mem.doc.acta = some a → (refine Fix.all c st call).st.mem.doc.acta = some ⟨a.text, 1⟩) ∧
     (st.mem.doc.acta = none → (refine Fix.all c st call).st.mem.doc.acta = none) := by
-  generalize hx : runShelxl Fix.all c { st.fs with ins := some (write c (insMem st call)) } call = x
+  generalize hx : runShelxl Fix.all c { st.fs with ins := some (write Fix.all c (insMem st call)) } call = x
   obtain ⟨fs2, e⟩ := x
   cases e with
   | some e =>
@@ -299,9 +312,9 @@ example : (refine Fix.all wc wSt ⟨some 4, false, ⟨1, .wrote 0, .good⟩⟩).
 /-! ### one call meets the whole specification; histories -/
 
 theorem refine_meets_spec [DecidableEq B] [DecidableEq R] (c : Codec B R) (st : St B R) (call : Call B)
-    (hs : inSync st.mem = true) (hp : plausible c st.fs.res call.out = true) :
+    (hp : plausible c st.fs.res call.out = true) :
     specStep c st call (refine Fix.all c st call) = true := by
-  have hins := ins_is_model_partial Fix.all c st call hs
+  have hins := ins_is_model Fix.all c st call rfl
   have hstale := no_stale_restore c st call
   unfold specStep
   simp only [Bool.and_eq_true]
@@ -312,14 +325,14 @@ theorem refine_meets_spec [DecidableEq B] [DecidableEq R] (c : Codec B R) (st : 
     · by_cases hf : failed c st.fs.res call.out = true
       · by_cases hb : call.backup = true
         · simp [hst, hf, hb, (failure_restores c st call hb hp hf).1]
-        · have h := runShelxl_failed c { st.fs with ins := some (write c (insMem st call)) } call
+        · have h := runShelxl_failed c { st.fs with ins := some (write Fix.all c (insMem st call)) } call
             (by simpa [started] using hst) hp hf
           simp only [Bool.not_eq_true] at hb
           simp [hst, hf, hb, refine_fs_of_run, h]
       · obtain ⟨b, hb, _, hr, _⟩ := success_reloads c st call hst hp (by simpa using hf)
         simp [hst, hf, hr, hb]
     · have hst' : started st call = false := by simpa using hst
-      have h := runShelxl_not_started Fix.all c { st.fs with ins := some (write c (insMem st call)) } call
+      have h := runShelxl_not_started Fix.all c { st.fs with ins := some (write Fix.all c (insMem st call)) } call
         (by simpa [started] using hst')
       simp [hst', refine_fs_of_run, h]
   · -- specBak
@@ -332,12 +345,12 @@ theorem refine_meets_spec [DecidableEq B] [DecidableEq R] (c : Codec B R) (st : 
         | none => simp [started, hb, h] at hst
         | some r0 => exact ⟨r0, rfl⟩
       by_cases hf : failed c st.fs.res call.out = true
-      · have h := runShelxl_failed c { st.fs with ins := some (write c (insMem st call)) } call
+      · have h := runShelxl_failed c { st.fs with ins := some (write Fix.all c (insMem st call)) } call
           (by simpa [started] using hst) hp hf
         rw [refine_fs_of_run, h]
         rw [hr0] at hf
         simp [hst, hf, hb, backedUp, hr0]
-      · have h := runShelxl_ok c { st.fs with ins := some (write c (insMem st call)) } call
+      · have h := runShelxl_ok c { st.fs with ins := some (write Fix.all c (insMem st call)) } call
           (by simpa [started] using hst) hp (by simpa using hf)
         rw [refine_fs_of_run, h]
         simp [hst, hb, backedUp, hr0]
@@ -352,11 +365,11 @@ theorem refine_meets_spec [DecidableEq B] [DecidableEq R] (c : Codec B R) (st : 
     · have hexc : (refine Fix.all c st call).exc ≠ none := by
         by_cases hst : started st call = true
         · have hf : failed c st.fs.res call.out = true := by simp_all
-          have h := runShelxl_failed c { st.fs with ins := some (write c (insMem st call)) } call
+          have h := runShelxl_failed c { st.fs with ins := some (write Fix.all c (insMem st call)) } call
             (by simpa [started] using hst) hp hf
           rw [(refine_exc_of_run_some Fix.all c st call _ _ h).1]; simp
         · have hst' : started st call = false := by simpa using hst
-          have h := runShelxl_not_started Fix.all c { st.fs with ins := some (write c (insMem st call)) } call
+          have h := runShelxl_not_started Fix.all c { st.fs with ins := some (write Fix.all c (insMem st call)) } call
             (by simpa [started] using hst')
           rw [(refine_exc_of_run_some Fix.all c st call _ _ h).1]; simp
       obtain ⟨h1, h2, h3⟩ := failure_keeps_model c st call hexc
@@ -366,63 +379,22 @@ theorem refine_meets_spec [DecidableEq B] [DecidableEq R] (c : Codec B R) (st : 
       | none => simp [hok, hsome, h1, h3 ha]
       | some a => simp [hok, hsome, h1, h2 a ha]
 
-example : inSync wSt'.mem = true ∧ plausible wc wSt'.fs.res (good 60) = true ∧
-    specStep wc wSt' ⟨some 4, true, good 60⟩ (refine Fix.all wc wSt' ⟨some 4, true, good 60⟩) = true := by decide
-
-/-- outside `inSync` the specification is not met (the open finding), so the hypothesis is needed -/
-example : specStep wc wSt ⟨some 4, true, good 60⟩ (refine Fix.all wc wSt ⟨some 4, true, good 60⟩) = false := by decide
-
-/-- the bookkeeping invariant is kept by every call -/
-theorem inSync_refine (c : Codec B R) (st : St B R) (call : Call B)
-    (hs : inSync st.mem = true) (hc : calm c st.fs.res call.out = true) :
-    inSync (refine Fix.all c st call).st.mem = true := by
-  generalize hx : runShelxl Fix.all c { st.fs with ins := some (write c (insMem st call)) } call = x
-  obtain ⟨fs2, e⟩ := x
-  cases e with
-  | some e =>
-    rw [(refine_exc_of_run_some Fix.all c st call e fs2 hx).2]
-    obtain ⟨fs, ⟨⟨acta, cyc, rest⟩, dow, skew⟩⟩ := st
-    obtain ⟨cycles, backup, o⟩ := call
-    unfold inSync at hs ⊢
-    cases acta <;> cases cycles <;> cases dow <;>
-      simp_all [Fix.all, insMem, setCycles, removeActa, restoreActa] <;> omega
-  | none =>
-    cases hr : fs2.res with
-    | none =>
-      rw [(refine_of_run_none Fix.all c st call fs2 hx hr).2]
-      obtain ⟨fs, ⟨⟨acta, cyc, rest⟩, dow, skew⟩⟩ := st
-      obtain ⟨cycles, backup, o⟩ := call
-      unfold inSync at hs ⊢
-      cases acta <;> cases cycles <;> cases dow <;> simp_all [insMem, setCycles, removeActa] <;> omega
-    | some b =>
-      rw [(refine_of_run_ok Fix.all c st call fs2 b hx hr).2]
-      -- fs2.res is what SHELXL left
-      have hleft : left st.fs.res call.out.res = some b := by
-        obtain ⟨b', hb1, hb2⟩ := runShelxl_none Fix.all c _ call (by rw [hx])
-        rw [hx] at hb1
-        simp only [hr, Option.some.injEq] at hb1
-        rw [hb1]; exact hb2
-      unfold calm at hc
-      rw [hleft] at hc
-      obtain ⟨fs, ⟨⟨acta, cyc, rest⟩, dow, skew⟩⟩ := st
-      obtain ⟨cycles, backup, o⟩ := call
-      unfold inSync
-      cases acta <;> cases cycles <;> simp_all [setCycles, removeActa, restoreActa] <;>
-        (rcases hc with hc | hc <;> simp [hc])
+example : plausible wc wSt.fs.res (good 60) = true ∧
+    specStep wc wSt ⟨some 4, true, good 60⟩ (refine Fix.all wc wSt ⟨some 4, true, good 60⟩) = true := by decide
 
 /-- **history_meets_spec**: over any sequence of `refine()` calls (the caller catching what is raised), every call meets
     the specification with respect to the state the previous call left — by induction over the outcome list. -/
 theorem history_meets_spec [DecidableEq B] [DecidableEq R] (c : Codec B R) (calls : List (Call B)) :
-    ∀ st : St B R, inSync st.mem = true → history c st calls = true →
+    ∀ st : St B R, history c st calls = true →
       traceSpec c st (trace Fix.all c st calls) = true := by
   induction calls with
-  | nil => intro st _ _; rfl
+  | nil => intro st _; rfl
   | cons call t ih =>
-    intro st hs hh
+    intro st hh
     simp only [history, Bool.and_eq_true] at hh
-    obtain ⟨⟨hp, hc⟩, ht⟩ := hh
+    obtain ⟨hp, ht⟩ := hh
     simp only [trace, traceSpec, Bool.and_eq_true]
-    exact ⟨refine_meets_spec c st call hs hp, ih _ (inSync_refine c st call hs hc) ht⟩
+    exact ⟨refine_meets_spec c st call hp, ih _ ht⟩
 
 /-- every call takes a backup -/
 def allBackup : List (Call B) → Bool
@@ -480,7 +452,7 @@ theorem acta_survives_history (c : Codec B R) (calls : List (Call B)) :
       cases he : (refine Fix.all c st call).exc with
       | some e => exact (failure_keeps_model c st call (by simp [he])).2.1 a ha
       | none =>
-        generalize hx : runShelxl Fix.all c { st.fs with ins := some (write c (insMem st call)) } call = x
+        generalize hx : runShelxl Fix.all c { st.fs with ins := some (write Fix.all c (insMem st call)) } call = x
         obtain ⟨fs2, e⟩ := x
         cases e with
         | some e => rw [(refine_exc_of_run_some Fix.all c st call e fs2 hx).1] at he; simp at he
@@ -500,8 +472,8 @@ theorem acta_survives_history (c : Codec B R) (calls : List (Call B)) :
 def wCalls : List (Call Nat) :=
   [⟨some 4, true, good 60⟩, ⟨none, true, ⟨1, .removed, .raises⟩⟩, ⟨some 2, true, ⟨0, .wrote 70, .missing⟩⟩]
 
-example : inSync wSt'.mem = true ∧ history wc wSt' wCalls = true ∧ allBackup wCalls = true ∧
-    allPlausible wc wSt'.fs.res wCalls = true ∧ lastGood wc wSt'.fs.res wCalls = some 70 := by decide
+example : history wc wSt wCalls = true ∧ allBackup wCalls = true ∧
+    allPlausible wc wSt.fs.res wCalls = true ∧ lastGood wc wSt.fs.res wCalls = some 70 := by decide
 
 /-! ### witnesses: the code as found breaks each statement (kept; `Fix` with the one repair missing) -/
 
